@@ -42,15 +42,18 @@ async function build (tier) {
   const leaves = []
   let stats = { states: 1, transitions: 0 }
   {
+    // every entry is absent or present (full product); independently, up to k entries (quick: 1, thorough: all)
+    // get another replacement name, or one of the variants is added
     const dims = ENTRIES.map((e, i) => ({ name: 'e' + i, symbols: [false, true], free: true }))
+    ENTRIES.forEach((e, i) => dims.push({ name: 'r' + i, symbols: [false, true], free: tier === 'thorough' }))
     dims.push({ name: 'variant', symbols: [null].concat(VARIANTS.map((v) => v.name)) })
-    const r = enumerate(dims, { k: 1 })
+    const r = enumerate(dims, { k: 1, valid: (cur, i) => { if (i >= 9 && i < 18 && cur['r' + (i - 9)] && !cur['e' + (i - 9)]) return false; return true } })
     stats = addStats(stats, r.stats)
     for (const l of r.leaves) {
-      let methods = ENTRIES.filter((e, i) => l.pick['e' + i])
+      let methods = ENTRIES.map((e, i) => l.pick['r' + i] ? Object.assign({}, e, { dst: 'r' + i + '_' + e.src }) : e).filter((e, i) => l.pick['e' + i])
       const variant = VARIANTS.find((v) => v.name === l.pick.variant)
       if (variant) methods = methods.concat(variant.add)
-      leaves.push({ fam: 'lattice', key: 'lat¦' + ENTRIES.map((e, i) => l.pick['e' + i] ? 1 : 0).join('') + '¦' + l.pick.variant, config: { localVarPrefix: 'p', csiMethods: methods }, variant: l.pick.variant })
+      leaves.push({ fam: 'lattice', key: 'lat¦' + ENTRIES.map((e, i) => l.pick['r' + i] ? 2 : l.pick['e' + i] ? 1 : 0).join('') + '¦' + l.pick.variant, config: { localVarPrefix: 'p', csiMethods: methods }, variant: l.pick.variant })
     }
     for (const c of [{ localVarPrefix: 'p' }, { localVarPrefix: 'p', csiMethods: [] }, {}]) { stats.states++; stats.transitions++; leaves.push({ fam: 'lattice', key: 'lat¦empty¦' + JSON.stringify(c), config: c, variant: null }) }
   }
@@ -81,7 +84,7 @@ async function build (tier) {
     stats = addStats(stats, r.stats)
     for (const hist of r.histories) leaves.push({ fam: 'events', key: 'ev¦' + hist.join(','), hist })
   }
-  return { leaves, stats, bound: { lattice: '2^9 entry subsets + 4 single variants + empty configs', options: '2^6 presence patterns x 7 verbosity spellings + non-object configs', event_history_length: tier === 'thorough' ? 6 : 5 }, alphabets: { entries: ENTRIES, variants: VARIANTS.map((v) => v.name), events: EVENTS } }
+  return { leaves, stats, bound: { lattice: tier === 'thorough' ? '3^9 assignments {absent, present, renamed} of 9 entries x up to 1 variant' : '2^9 present/absent subsets of 9 entries x (nothing | one entry renamed | one of 4 variants)', options: '2^6 presence patterns x 7 verbosity spellings + non-object configs', event_history_length: tier === 'thorough' ? 6 : 5 }, alphabets: { entries: ENTRIES, variants: VARIANTS.map((v) => v.name), events: EVENTS } }
 }
 
 function requests (leaf) {
